@@ -256,6 +256,71 @@ async def session(ctx, case):
         tap.close()
 
 
+def snooping_writer_case(ctx, i):
+    """The writer is a driver's in-process snooping client (Driver.snoop_device), which snooped the target device several times -
+    whole device, single properties, in any order - before it writes: the target must hold the value sent, nothing else may
+    change, and the writer's own view must show it."""
+    from indi.routing import Router
+    rng = ctx.rng("snoop-writer", i)
+
+    def vec(attr, kind, name, n, **kw):
+        v = {"attr": attr, "kind": kind, "name": name, "label": None, "state": None, "perm": None, "timeout": None, "enabled": True,
+             "elements": [{"attr": f"e{k}", "name": f"{name}_E{k}", "label": None, "default": None, "enabled": True} for k in range(n)]}
+        v.update(kw)
+        return v
+    nv = vec("n", "Number", "NUM", 2)
+    for e in nv["elements"]:
+        e.update(format="%.3f", min=None, max=None, step=0)
+    spec = {"name": "TGT", "levels": [{"groups": [{"attr": "g", "name": "G", "enabled": True, "vectors": [
+        vec("t", "Text", "TXT", 2), vec("u", "Text", "TXU", 1), nv, vec("s", "Switch", "SW", 2, rule="AnyOfMany", default_on=None)]}]}]}
+    router = Router()
+    tgt = D.build(spec)(router=router)
+    guide = D.build(dict(spec, name="GUIDE"))(router=router)
+    names = ["TXT", "TXU", "NUM", "SW"]
+    plan = [rng.choice([None] + names) for _ in range(rng.choice([1, 2, 2, 3]))]
+    if not any(p is None for p in plan) and rng.random() < 0.3:
+        plan.insert(rng.randrange(len(plan) + 1), None)
+    snoop = None
+    for p in plan:
+        snoop = guide.snoop_device("TGT", p) if p else guide.snoop_device("TGT")
+    known = sorted(stack.client_view(snoop).get("TGT", {}))
+    want_known = names if None in plan else sorted(set(plan))
+    case = {"mode": "snoop-writer", "i": i}
+    ctx.count("snooping_writer_sessions")
+    if sorted(known) != sorted(want_known):
+        ctx.violate("snooping-client-does-not-know-what-it-snooped", f"snooped {plan}: knows {known}", case)
+        return
+    for step in range(6):
+        p = rng.choice(known)
+        kind = {"TXT": "Text", "TXU": "Text", "NUM": "Number", "SW": "Switch"}[p]
+        cvec = snoop.get_device("TGT").get_vector(p)
+        en = rng.choice(list(cvec.list_elements()))
+        val = {"Text": f"w{i}-{step}", "Number": round(rng.uniform(-100, 100), 2), "Switch": rng.choice(["On", "Off"])}[kind]
+        before = snapshot([tgt], [spec])
+        cvec.get_element(en).value = val
+        cvec.submit()
+        ctx.count("writes")
+        ctx.count("writes_by_a_snooping_client")
+        after = snapshot([tgt], [spec])
+        key = ("TGT", p, en)
+        changed = {k for k in after if after[k] != before.get(k) and not k[2].startswith("<")}
+        have = after.get(key)
+        ok = (abs(float(have) - val) < 1e-3) if kind == "Number" and have is not None else have == val
+        if not ok:
+            ctx.violate(f"target-does-not-hold-sent-value:{kind}:snooping-writer", f"{key}: device holds {have!r}, sent {val!r} (snooped {plan})", case)
+            return
+        if changed - {key}:
+            ctx.violate("write-changed-other-elements:snooping-writer", f"{key}: also changed {sorted(changed - {key})}", case)
+            return
+        shown = stack.client_view(snoop).get("TGT", {}).get(p, {}).get("elements", {}).get(en, (None, None))[1]
+        okv = (shown is not None and abs(float(shown) - val) < 1e-3) if kind == "Number" else shown == val
+        if not okv:
+            ctx.violate(f"client-view-stale-after-write:{kind}:snooping-writer",
+                        f"{key}: the writing snooping client shows {shown!r}, device holds {have!r} (it snooped {plan})", case)
+            return
+    ctx.case_fast(("snoop-writer", i), nontrivial=True)
+
+
 def one_case(ctx, case):
     nw = asyncio.run(session(ctx, case))
     ctx.case({"i": case["i"], "specs": case["specs"], "modes": [case["mode_c2s"], case["mode_s2c"]]}, nontrivial=nw > 0,
@@ -271,7 +336,13 @@ def run(ctx):
         one_case(ctx, gen_case(ctx, i))
         if ctx.enough():
             break
+    for i in range(400 if not ctx.thorough else 20000):
+        if ctx.mine(i):
+            snooping_writer_case(ctx, i)
 
 
 def replay(ctx, case):
+    if case.get("mode") == "snoop-writer":
+        snooping_writer_case(ctx, case["i"])
+        return
     one_case(ctx, case)
